@@ -26,9 +26,10 @@ class Tok:
 
 
 class _TH(Hooks):
-    def __init__(self, out_var: str, char_var: str):
+    def __init__(self, out_var: str, char_var: str, consts: Optional[dict] = None):
         self.out_var = out_var
         self.char_var = char_var
+        self.consts = consts or {}   # module-level string constants the body may emit by name
         self.bad: list[str] = []
 
     def event(self, text, call, it):
@@ -40,6 +41,8 @@ class _TH(Hooks):
                 return ("tok", Tok("raw", val.v))
             if isinstance(val, Distinct):
                 return ("tok", Tok("rawchar"))
+            if isinstance(arg, ast.Name) and isinstance(self.consts.get(arg.id), str) and not isinstance(val, (Const, Distinct)):
+                return ("tok", Tok("raw", self.consts[arg.id]))
             if isinstance(arg, ast.Call) and ast.unparse(arg.func) == "re.escape" and len(arg.args) == 1:
                 inner = it.ev(arg.args[0])
                 if isinstance(inner, Const) and isinstance(inner.v, str):
@@ -52,8 +55,9 @@ class _TH(Hooks):
 
 
 class Transducer:
-    def __init__(self, fn: ast.FunctionDef, repo: Optional[Repo] = None):
+    def __init__(self, fn: ast.FunctionDef, repo: Optional[Repo] = None, consts: Optional[dict] = None):
         self.fn = fn
+        self._consts = consts or {}
         loops = [s for s in fn.body if isinstance(s, ast.For)]
         if len(loops) != 1:
             raise AnalysisError(f"{fn.name}: expected exactly one top-level character loop")
@@ -82,7 +86,7 @@ class Transducer:
                     if isinstance(c, ast.Constant) and isinstance(c.value, str) and len(c.value) == 1:
                         lits.add(c.value)
         self.literals = sorted(lits)
-        self.hooks = _TH(self.out_var, self.char_var)
+        self.hooks = _TH(self.out_var, self.char_var, self._consts)
         # state variables: locals assigned in the loop body or before it (except the output list)
         env0, ev0, oc0 = run_block(self.pre, {p: Sym(p) for p in params}, self.hooks)
         if ev0 or oc0:
